@@ -228,10 +228,11 @@ def run(ctx):
                             break
                 if bad:
                     continue
-                # ... everything listed is restored, except what lies beneath a listed symlink (refused, with an error)
+                # ... everything listed is restored, except what lies beneath a listed symlink or file (a directory of the
+                # previous version that the new one replaced: refused or impossible, with an error)
                 if partial.get("tree"):
                     there = {pth for pth, _n in gen.tree_paths(partial["tree"])}
-                    links = [e["apath"] for e, _ in exp if e.get("kind") == "Symlink"]
+                    links = [e["apath"] for e, _ in exp if e.get("kind") != "Dir"]
                     lost = [e["apath"] for e, _ in exp if e["apath"] not in there
                             and not any(l != e["apath"] and gen.comp_prefix(l, e["apath"]) for l in links)]
                     if lost:
